@@ -117,6 +117,8 @@ M = [
     ("m80", "C08", "src/replication/state/shard_state.rs", "    pub fn drain_pending_deltas(&mut self) -> Vec<ReplicationDelta> {", "    pub fn reset(&mut self) {\n        *self = ShardReplicaState::new(self.replica_id, self.consistency_level);\n    }\n\n    pub fn drain_pending_deltas(&mut self) -> Vec<ReplicationDelta> {", r"R08\.1:.*assign-through-owner-ref"),
     ("m81", "C01", "src/redis/executor/hash_ops.rs", "                RespValue::Array(Some(elements))\n            }\n            Some(_) => {\n                RespValue::err(\"WRONGTYPE Operation against a key holding the wrong kind of value\")\n            }\n            None => RespValue::Array(Some(Vec::new())),", "                RespValue::Array(Some(elements))\n            }\n            _ => RespValue::Array(Some(Vec::new())),", r"R01\.13:execute_hgetall"),
     ("m82", "C01", "src/redis/executor/bitmap_ops.rs", "            Some(_) => (false, true),\n", "            Some(_) => (true, false),\n", r"R01\.13:execute_setbit"),
+    ("m83", "C01", "src/redis/data/skiplist.rs", "            .partial_cmp(&score2)\n            .unwrap_or(Ordering::Equal)\n", "            .total_cmp(&score2)\n", r"R01\.15"),
+    ("m84", "C01", "src/redis/data/sorted_set.rs", "                if old_score == score {", "                if (old_score - score).abs() < f64::EPSILON {", r"R01\.14"),
 ]
 
 
